@@ -44,6 +44,96 @@ def observe(src_path, workdir, cfg, stdin=None):
     return (r.rc, r.out, errclass)
 
 
+def build_separately(case_dir, main_rel, module_rels, O, link_listdefs, tag):
+    """--module-linken=false on a program WITH imports: kddp then compiles only the file it is given, so every (transitively)
+    imported module is compiled by its own kddp call into an object file and all objects are handed to the system linker.
+    Every such object carries a ddp_ddpmain of its own (kddp compiles each file 'as main module'); that one symbol is made
+    local with objcopy. Returns (exe path or None, failure text)."""
+    objs = []
+    for k, rel in enumerate(module_rels):
+        src = rel if os.path.isabs(rel) else os.path.join(case_dir, rel)
+        o = os.path.join(case_dir, "%s_mod%d.o" % (tag, k))
+        c = vlib.kddp_compile(src, o, O=O, link_modules=False, link_listdefs=False, cwd=os.path.dirname(src))
+        if c.timed_out:
+            return None, None
+        if c.rc != 0 or not os.path.exists(o):
+            return None, "module %s: %s" % (os.path.basename(rel), (c.err or c.out)[-300:])
+        l = vlib.run(["objcopy", "--localize-symbol=ddp_ddpmain", o])
+        if l.rc != 0:
+            return None, None
+        objs.append(o)
+    exe = os.path.join(case_dir, tag + "_exe")
+    main = os.path.join(case_dir, main_rel)
+    c = vlib.kddp_compile(main, exe, O=O, link_modules=False, link_listdefs=link_listdefs, gcc_opts=" ".join(objs) + " -lddpstdlib -lddpruntime -lm")
+    for o in objs:
+        os.unlink(o)
+    if c.timed_out:
+        return None, None
+    if c.rc != 0 or not os.path.exists(exe):
+        return None, "link: " + re.sub(r"/\S*/", "", (c.err or c.out))[-400:]
+    return exe, ""
+
+
+def graph_observations(d, main_rel, mods):
+    main = os.path.join(d, main_rel)
+    obs = {}
+    for O in (0, 1, 2):
+        obs[(O, True, True)] = observe(main, d, (O, True, True))
+    mods = list(mods) + [os.path.join(vlib.DDP, "Duden", "Ausgabe.ddp")]
+    for O in (0, 1, 2):
+        for ll in (True, False):
+            cfg = (O, False, ll)
+            exe, fail = build_separately(d, main_rel, mods, O, ll, "sep_" + cfg_name(cfg))
+            if exe is None:
+                obs[cfg] = None if fail is None else ("compile-failed", re.sub(r"0x[0-9a-f]+|\d+", "N", fail)[:200], "")
+                continue
+            r = vlib.run_exe(exe, cwd=d)
+            os.unlink(exe)
+            obs[cfg] = None if r.timed_out else (r.rc, r.out, re.split(r"\d", r.err.strip().split("\n")[0])[0] if r.err.strip() else "")
+    return obs
+
+
+def run_module_graphs(chk, sc, n):
+    """multi-module programs (C10's generated import graphs: global initialisers with side effects, public functions, directory and
+    selective imports): the default build (everything merged into one LLVM module) against separately compiled modules at -O 0/1/2
+    with and without linked-in list definitions. Differences in stdout or exit status - uninitialised globals of an imported module,
+    a missing or doubled initialiser, a symbol that only one mode exports - are violations."""
+    from checks import c10_gen
+
+    def work(i):
+        spec = c10_gen.gen_graph(chk.seed, 5000 + i)
+        d = os.path.join(sc.path, "mg%d" % i)
+        for rel, content in spec["files"].items():
+            vlib.write_file(os.path.join(d, rel), content)
+        mods = [m["rel"] + ".ddp" for k, m in sorted(spec["mods"].items()) if m["reach"] and k != "main"]
+        obs = graph_observations(d, spec["main"], mods)
+        return spec, obs
+
+    for spec, obs in vlib.pmap(work, range(n)):
+        vals = {c: o for c, o in obs.items() if o is not None}
+        chk.inconclusive += sum(1 for o in obs.values() if o is None)
+        built = [c for c, o in vals.items() if o[0] != "compile-failed"]
+        chk.note_case("graph:%s" % spec["name"], nontrivial=len(built) >= 2)
+        chk.count("configurations_run", len(vals))
+        chk.count("programs_module_graph")
+        chk.count("modules_compiled_separately", 6 * sum(1 for k, m in spec["mods"].items() if m["reach"] and k != "main"))
+        groups = {}
+        for c, o in vals.items():
+            groups.setdefault(o, []).append(c)
+        if len(groups) > 1:
+            major = max(groups.values(), key=len)
+            minority = sorted(c for cs in groups.values() if cs is not major for c in cs)
+            what = sorted({("compile" if o[0] == "compile-failed" else "run") for o in groups})[-1]
+            detail = ""
+            if what == "compile":
+                detail = next(re.sub(r"[`'][^`']*[`']", "'X'", o[1])[:90] for o in groups if o[0] == "compile-failed")
+            sig = {"kind": "configurations disagree", "source": "module graph", "what": what, "minority": " ".join(sorted({cfg_name(c) for c in minority})), "detail": detail}
+            files = {"case/" + rel: content for rel, content in spec["files"].items()}
+            files["observations.json"] = json.dumps({cfg_name(c): [str(o[0]), o[1][:400], o[2]] for c, o in sorted(vals.items())}, indent=1, ensure_ascii=False)
+            files["spec.json"] = json.dumps({"main": spec["main"], "mods": {k: m["rel"] for k, m in spec["mods"].items() if m["reach"]}}, indent=1)
+            chk.violation(sig, files=files, text="module graph %s: " % spec["name"] + "; ".join("%s -> %s" % ([cfg_name(c) for c in cs], (o[0], o[1][:80], o[2])) for o, cs in groups.items())[:1500])
+
+
 def numeric_extras(rnd):
     """observations that need no model: pow / root / logarithm with arbitrary arguments"""
     out = []
@@ -63,7 +153,8 @@ def run(tier):
     ngen, ngold = (36, 14) if tier == "quick" else (300, 150)
     chk.rule = ("sources: seeded random statement programs of ddpmodel (a third of them with local variables only) and C08's copy/alias programs (self-contained print prelude, so all 12 configurations {O0,O1,O2} x {modules linked?} x "
                 "{list definitions linked?} apply) extended with model-free pow/root/log observations, plus upstream's programs under tests/testdata and examples "
-                "that compile here (6 configurations, imports need module linking). Distinct by source hash; non-trivial = at least two configurations produced an "
+                "that compile here (6 configurations, imports need module linking); and C10's generated import graphs (2-7 modules with global initialisers), built merged at -O 0/1/2 and with every "
+                "imported module compiled separately (--module-linken=false, one kddp call per module, linked by the system linker) at -O 0/1/2 x list definitions linked or not. Distinct by source hash; non-trivial = at least two configurations produced an "
                 "executable. Oracle: identical (exit status, stdout, first stderr line up to the first digit) across configurations.")
     chk.assumptions = ["programs depending on time, randomness, environment, files or stdin are excluded by a deny list", "locale shim de_DE.UTF-8"]
     with Scratch("c11") as sc:
@@ -153,6 +244,7 @@ def run(tier):
                               text="configurations disagree: " + "; ".join("%s -> %s" % ([cfg_name(c) for c in cs], (o[0], o[1][:60], o[2])) for o, cs in groups.items())[:1500])
             if kind == "gen" and x < 2:
                 chk.sample({"source_head": src[-700:], "configurations": [cfg_name(c) for c in sorted(vals)], "agreed": len(groups) == 1, "stdout_head": vals[ref_c][1][:150]})
+        run_module_graphs(chk, sc, 12 if tier == "quick" else 120)
     return chk.finish(min_events=10)
 
 
@@ -179,6 +271,15 @@ def shape_of_disagreement(prog, cfg_a, cfg_b, workdir):
 def replay(path):
     vlib.ensure_build(asan=False)
     with Scratch("c11r") as sc:
+        if os.path.exists(os.path.join(path, "spec.json")):
+            spec = json.load(open(os.path.join(path, "spec.json")))
+            d = os.path.join(sc.path, "case")
+            shutil.copytree(os.path.join(path, "case"), d)
+            obs = graph_observations(d, spec["main"], [rel + ".ddp" for k, rel in sorted(spec["mods"].items()) if k != "main"])
+            if len({v for v in obs.values() if v is not None}) > 1:
+                print("VIOLATION property=%s replay=%s" % (PID, path))
+                return 1
+            return 0
         sp = os.path.join(sc.path, "main.ddp")
         src = open(os.path.join(path, "main.ddp")).read()
         open(sp, "w").write(src)
